@@ -120,7 +120,7 @@ def decode_gallina(m):
     return {'status': st if isinstance(st, str) else st[0],
             'class': None if d['class'] == 'none' else d['class'][1],
             'distinct': d['distinct'] == 'true',
-            'file_ambiguous': ['/'.join(vf.unS(c) for c in p) for p in d['file_ambiguous']],
+            'file_ambiguous': [str(pathlib.PurePosixPath(*[vf.unS(c) for c in p])) for p in d['file_ambiguous']],
             'imports': {vf.unS(c): sorted([vf.unS(a), vf.unS(b)] for a, b in im) for c, im in d['imports'] if im},
             'table': {vf.unS(c): sorted(vf.unS(n) for n in names) for c, names in d['table']}}
 
